@@ -285,7 +285,7 @@ fn gen_c09(r: &mut Rng, idx: u64) -> Vec<Op> {
     ops.push(Op::InitArea { start: stack + 256, len: 64, seed: r.next() | 1, named: false });
     let mut cells: Vec<(u32, u32)> = Vec::new(); // (mask, path)
     for mask in 0..8u32 {
-        for path in 0..17u32 {
+        for path in 0..18u32 {
             cells.push((mask, path));
         }
     }
@@ -379,6 +379,18 @@ fn gen_c09(r: &mut Rng, idx: u64) -> Vec<Op> {
                 } else {
                     ops.push(Op::GuestStore { size, addr: adj - back, val: hex(r.next() as u128) });
                 }
+            }
+            17 => {
+                // a protection mask survives resizing: protect, resize (grow or shrink), then access
+                ops.push(Op::Prot { start: nops, prot: mask });
+                ops.push(Op::Resize { start: nops, new_len: *r.pick(&[48u64, 64, 80, 128]) });
+                match r.below(4) {
+                    0 => ops.push(Op::WriteBytes { addr: nops + r.below(32), len: r.range(1, 8), seed: r.next() }),
+                    1 => ops.push(Op::ReadBytes { addr: nops + r.below(32), len: r.range(1, 8) }),
+                    2 => ops.push(Op::GuestFetch { addr: nops + r.below(32) }),
+                    _ => ops.push(Op::GuestStore { size: *r.pick(&[1u32, 4, 8]), addr: nops + r.below(32), val: hex(0x90) }),
+                }
+                ops.push(Op::Resize { start: nops, new_len: 64 });
             }
             16 => {
                 // implicit stack store at the very top of the stack area, neighbour under `mask`
